@@ -22,9 +22,13 @@ class DRR(MultiQueueScheduler):
         super().__init__(env, rate, flow2class, debug)
         self.deficit: Dict[FlowId, float] = dict()
         self.quantum: Dict[FlowId, float] = dict()
+        self.class_count: Dict[ClassId, int] = dict()
+        """Packets of each class that are waiting or in transmission
+        """
         min_weight = min(weights.values())
         for class_id, weight in weights.items():
             self.deficit[class_id] = 0.0
+            self.class_count[class_id] = 0
             self.queue_count[class_id] = 0
             self.quantum[class_id] = self.MIN_QUANTUM * weight / min_weight
         self.head_of_line = dict()
@@ -35,14 +39,13 @@ class DRR(MultiQueueScheduler):
     def run(self, env: Environment) -> ProcessGenerator:
         while True:
             while self.total_packets > 0:
-                counts = self.queue_count.items()
-                for class_id, count in counts:
-                    if count > 0:
+                for class_id in self.quantum:
+                    if self.class_count[class_id] > 0:
                         self.deficit[class_id] += self.quantum[class_id]
                         self.dprint(
                             f"Flow queue length: {self.queue_count[class_id]}, "
                             f"deficit counters: {self.deficit}")
-                    while self.deficit[class_id] > 0 and self.queue_count[class_id] > 0:
+                    while self.deficit[class_id] > 0 and self.class_count[class_id] > 0:
                         if class_id in self.head_of_line:
                             packet = self.head_of_line[class_id]
                             del self.head_of_line[class_id]
@@ -58,7 +61,8 @@ class DRR(MultiQueueScheduler):
                         if packet.size <= self.deficit[class_id]:
                             yield env.process(self.send_packet(packet))
                             self.deficit[class_id] -= packet.size
-                            if self.queue_count[class_id] == 0:
+                            self.class_count[class_id] -= 1
+                            if self.class_count[class_id] == 0:
                                 self.deficit[class_id] = 0.0
                             self.dprint(f"Deficit reduced to {self.deficit[class_id]} for {class_id}")
                         else:
@@ -67,3 +71,12 @@ class DRR(MultiQueueScheduler):
                             break
             if self.total_packets == 0:
                 yield self.packets_available.get()
+
+    def put(self, packet: Packet):
+        # one subqueue per class: several flows may share a class
+        class_id = self.flow2class(packet.flow_id)
+        if self.total_packets == 0:
+            self.packets_available.put(True)
+        self.add_packet_to_queue(packet)
+        self.class_count[class_id] += 1
+        self.stores[class_id].put(packet)
